@@ -13,21 +13,21 @@ func init() {
 	})
 	property(&Property{
 		ID:          "C02",
-		Rules:       []string{"LITERAL-FIRST", "BACKTRACK", "STOP-SET", "SORTED-VARS", "NO-MAP-ORDER", "OFFSET-BASE", "PATH-CHARSET"},
+		Rules:       []string{"LITERAL-FIRST", "BACKTRACK", "STOP-SET", "SORTED-VARS", "NO-MAP-ORDER", "OFFSET-BASE", "PATH-CHARSET", "COW-5"},
 		Decides:     "Decides the structural guarantees of the matcher's shape for every rule set and path: the literal edge is tried before any variable and wins if it succeeds; a failed sub-search never aborts the search (only a conversion failure does); variables are kept sorted by a strict order on a key that depends on the pattern only; nothing on the matching path ranges over a map; capture lengths are computed against the right base.",
 		NotDecided:  "that every instantiation of every template matches (value-level: lexer character classes, token cap, '**' stopping at the first ':'); order independence of registration (duplicate detection, delRule).",
 		Assumptions: commonAssumptions,
 	})
 	property(&Property{
 		ID:          "C03",
-		Rules:       []string{"KIND-EXHAUSTIVE", "KIND-VALUE-AGREE", "WKT-TABLE", "BYTES-ALPHABETS", "NAME-RESOLUTION", "FIELDPATH-SINGULAR", "DECODE-THEN-PARAMS", "DESC-ROLE", "DECOMP-AGREE", "B64-BUF"},
+		Rules:       []string{"KIND-EXHAUSTIVE", "KIND-VALUE-AGREE", "WKT-TABLE", "BYTES-ALPHABETS", "NAME-RESOLUTION", "FIELDPATH-SINGULAR", "DECODE-THEN-PARAMS", "DESC-ROLE", "DECOMP-AGREE", "B64-BUF", "QUOTE-ESCAPES"},
 		Decides:     "Decides that the per-kind conversion table is complete and type-correct against protoreflect's Kind/Value contract, that well-known types are listed and unmarshalled into their own type, that the bytes arm reaches all four base64 variants, that names resolve by JSON name then proto name, that field paths only walk singular message fields, that body/query/path resolution uses the request descriptor, that decompression and codec selection follow the request headers, and that parameters are applied after the body.",
 		NotDecided:  "that converted values equal the proto3 JSON reading (null, NaN, whitespace, base64 details), the round-trip law itself, codec behaviour.",
 		Assumptions: commonAssumptions,
 	})
 	property(&Property{
 		ID:          "C04",
-		Rules:       []string{"DESC-ROLE", "FIELDPATH-SINGULAR", "RESP-APPLIED", "CT-AGREE", "CE-AGREE", "OFFERS-AGREE", "MD-RESERVED-TABLE", "POOL-FOREIGN", "NEGOTIATE-ADMITS"},
+		Rules:       []string{"DESC-ROLE", "FIELDPATH-SINGULAR", "RESP-APPLIED", "CT-AGREE", "CE-AGREE", "OFFERS-AGREE", "MD-RESERVED-TABLE", "POOL-FOREIGN", "NEGOTIATE-ADMITS", "MD-GATE-OUT"},
 		Decides:     "Decides that the header naming the body's type/encoding and the codec/compressor that produced the body are chosen by the same value on every path, that response_body is resolved with its own selector against the reply type and applied on send, that offers come from the very codec map that is indexed, and that handler metadata cannot override Content-Type/Content-Encoding.",
 		NotDecided:  "negotiation results for concrete Accept strings; marshalled bytes; whether compression is ever offered.",
 		Assumptions: commonAssumptions,
@@ -41,7 +41,7 @@ func init() {
 	})
 	property(&Property{
 		ID:          "C06",
-		Rules:       []string{"ENCODER-CLOSE", "CARRY-OVER", "FRAME-AGREE", "READFULL-EOF", "FWD-CLOSESEND"},
+		Rules:       []string{"ENCODER-CLOSE", "CARRY-OVER", "FRAME-AGREE", "READFULL-EOF", "FWD-CLOSESEND", "COMPRESS-FLAG", "READ-FAIL-NONNIL"},
 		Decides:     "Decides only three structural necessary conditions of 'no lost byte': the gRPC-web-text byte stream is terminated; bytes a stream codec read past the current message are saved on every path and handed to the next read; the gRPC frame writer and reader (and the gRPC-web trailer frame) agree on header length, offsets and byte order.",
 		NotDecided:  "and this is most of the property: sequence equality, fragmentation invariance, truncation behaviour, phantom/dropped messages at EOF, WebSocket end-of-stream.",
 		Assumptions: commonAssumptions,
@@ -55,21 +55,21 @@ func init() {
 	})
 	property(&Property{
 		ID:          "C08",
-		Rules:       []string{"LIMIT-SRC", "LIMIT-STRICT", "LIMIT-IMPL", "LIMIT-DEFAULTS", "SIGNCONV", "OPTS-RO"},
+		Rules:       []string{"LIMIT-SRC", "LIMIT-STRICT", "LIMIT-IMPL", "LIMIT-DEFAULTS", "SIGNCONV", "OPTS-RO", "COMPRESS-FLAG"},
 		Decides:     "Decides that every way request bytes enter memory on a request-reachable path is bounded by the configured receive limit before use on every protocol (including after decompression and on WebSocket), that refusing comparisons are strict (a message exactly at the limit is accepted), that every in-repo stream codec honours its limit, that wire lengths cannot wrap through a sign-changing conversion, and that the limit in force is the configured one.",
 		NotDecided:  "numeric boundary behaviour of library readers, memory use, user-supplied StreamCodecs.",
 		Assumptions: commonAssumptions,
 	})
 	property(&Property{
 		ID:          "C09",
-		Rules:       []string{"PANIC-REACH-SERVE", "COMMAOK-SERVE", "ASSERT-CHECKED", "TABLE-GUARD", "SIGNCONV", "OFFSET-BASE", "FIELDPATH-SINGULAR", "TOKEN-KINDS", "NIL-MAP-WRITE", "STATS-PURE", "SLICE-CAP", "NILABLE-FIELD", "FD-LOCAL", "CODEC-LOOKUP-TOTAL", "NIL-STATE", "B64-BUF"},
+		Rules:       []string{"PANIC-REACH-SERVE", "COMMAOK-SERVE", "ASSERT-CHECKED", "TABLE-GUARD", "SIGNCONV", "OFFSET-BASE", "FIELDPATH-SINGULAR", "TOKEN-KINDS", "NIL-MAP-WRITE", "STATS-PURE", "SLICE-CAP", "NILABLE-FIELD", "FD-LOCAL", "CODEC-LOOKUP-TOTAL", "NIL-STATE", "B64-BUF", "SUB-LOW"},
 		Decides:     "Decides the absence, on every call-graph path from the request entry points, of the enumerated crash constructs: explicit panic, use of a comma-ok result where ok may be false, unjustified single-result type assertions, off-by-one table guards, sign-changing conversions of wire lengths, index-relative-to-wrong-base arithmetic, field paths walking through repeated/map/scalar fields, pattern tokens the matcher panics on, writes through nil maps, stats-only slicing.",
 		NotDecided:  "general slice/index arithmetic, nil dereferences beyond the comma-ok class, termination, resource exhaustion, panics inside dependencies beyond the encoded contracts.",
 		Assumptions: commonAssumptions,
 	})
 	property(&Property{
 		ID:          "C10",
-		Rules:       []string{"FWD-MD", "FWD-CLOSESEND", "FWD-PAIR", "FWD-ERR-IDENTITY", "FWD-ERR-PROMPT", "DESC-ROLE", "ROLE-AGREE", "GO-SHARED", "IC-ONCE"},
+		Rules:       []string{"FWD-MD", "FWD-CLOSESEND", "FWD-PAIR", "FWD-ERR-IDENTITY", "FWD-ERR-PROMPT", "DESC-ROLE", "ROLE-AGREE", "GO-SHARED", "IC-ONCE", "ESCAPE-SET", "TAIL-FLUSH"},
 		Decides:     "Decides the forwarder's plumbing: the backend call carries the inbound metadata, method name and streaming shape; client half-close is forwarded; each inbound message is forwarded as received into a fresh message of the request type and replies are built from the reply type; backend errors are returned unmodified; the pump goroutine shares nothing unsynchronised and never touches the response side.",
 		NotDecided:  "observational equivalence of transcripts; reflection-based descriptor discovery; response header metadata.",
 		Assumptions: commonAssumptions,
@@ -104,7 +104,7 @@ func init() {
 	})
 	property(&Property{
 		ID:          "C15",
-		Rules:       []string{"CTX-ANCESTRY", "TIMEOUT-APPLIED", "TIMEOUT-REFUSED", "UNIT-TABLE", "TIMEOUT-DIGITS", "TIMEOUT-CLAMP"},
+		Rules:       []string{"CTX-ANCESTRY", "TIMEOUT-APPLIED", "TIMEOUT-REFUSED", "UNIT-TABLE", "TIMEOUT-DIGITS", "TIMEOUT-CLAMP", "READ-FAIL-NONNIL"},
 		Decides:     "Decides that the handler's context always descends from the request's context through context-deriving calls only, that a present grpc-timeout is decoded with the spec's unit table and length bounds and installed with context.WithTimeout, and that a malformed one is refused before the handler can run.",
 		NotDecided:  "promptness; that a handler blocked inside r.Body.Read is released (net/http behaviour); sign/overflow handling of the digits.",
 		Assumptions: commonAssumptions,
@@ -118,7 +118,7 @@ func init() {
 	})
 	property(&Property{
 		ID:          "C17",
-		Rules:       []string{"LIMIT-IMPL", "LIMIT-STRICT", "SIGNCONV", "COMMAOK-SERVE", "READFULL-EOF", "SLICE-CAP"},
+		Rules:       []string{"LIMIT-IMPL", "LIMIT-STRICT", "SIGNCONV", "COMMAOK-SERVE", "READFULL-EOF", "SLICE-CAP", "READ-FAIL-NONNIL"},
 		Decides:     "Decides the limit-safe half: every in-repo ReadNext compares against its limit before it can return a message, strictly, and in a domain where the decoded length cannot wrap.",
 		NotDecided:  "fragmentation invariance and carry-over exactness - the other half of the property (value-level).",
 		Assumptions: commonAssumptions,
